@@ -353,3 +353,95 @@ def specialized_paths_ex(fn, args):
             return None
         out.append((rest, prov.subst(val, params), list(p.blocks)))
     return out
+
+
+# ---- path-wise constant resolution: on ONE acyclic path the definition that reaches a use is the last one on the path
+def _last_def(fn, blocks, i, si, local):
+    for k in range(i, -1, -1):
+        bb = blocks[k]
+        stmts = fn.blocks[bb]['s']
+        hi = si if (k == i and si is not None) else len(stmts)
+        if k < i or si is None:
+            t = fn.blocks[bb]['t']
+            if k < i and t['k'] == 'call' and t.get('dest') and t['dest']['l'] == local:
+                return ('call', t)
+        for j in range(hi - 1, -1, -1):
+            s = stmts[j]
+            if s['k'] == 'assign' and s['p']['l'] == local:
+                return ('assign', s, k, j)
+    return None
+
+
+def path_const(fn, blocks, i, si, op, fields=(), depth=0):
+    """constant ('true' / 'false' / integer text / enum variant name) the operand `op`, used in blocks[i] before statement si (None = at the
+    terminator), evaluates to ON THIS PATH — or None when it is not a constant assembled on the path itself"""
+    if depth > 12 or not isinstance(op, dict):
+        return None
+    if op.get('k') == 'const':
+        return op.get('val') if not fields else None
+    if op.get('k') not in ('copy', 'move'):
+        return None
+    p = op['p']
+    fl = tuple(e['f'] for e in p.get('proj', []) if isinstance(e, dict) and 'f' in e) + tuple(fields)
+    if any(isinstance(e, dict) and 'f' not in e and e.get('k') not in (None, 'deref') for e in p.get('proj', [])):
+        return None
+    d = _last_def(fn, blocks, i, si, p['l'])
+    if d is None or d[0] != 'assign':
+        return None
+    _, s, k, j = d
+    if 'proj' in s['p']:
+        return None
+    rv = s['rv']
+    if rv['k'] == 'use':
+        return path_const(fn, blocks, k, j, rv['op'], fl, depth + 1)
+    if rv['k'] == 'agg':
+        if not fl:
+            return rv.get('variant') if rv.get('enum') else None
+        f0 = fl[0]
+        ops = rv.get('ops', [])
+        if rv.get('ak') == 'tuple' and f0.isdigit() and int(f0) < len(ops):
+            return path_const(fn, blocks, k, j, ops[int(f0)], fl[1:], depth + 1)
+        if rv.get('ak') == 'adt' and f0 in (rv.get('fields') or []):
+            return path_const(fn, blocks, k, j, ops[rv['fields'].index(f0)], fl[1:], depth + 1)
+        return None
+    if rv['k'] == 'discr' and not fl:
+        return path_const(fn, blocks, k, j, {'k': 'copy', 'p': rv['p']}, (), depth + 1)
+    if rv['k'] == 'unop' and rv.get('op') == 'Not' and not fl:
+        v = path_const(fn, blocks, k, j, rv.get('a') or rv.get('operand') or rv.get('o'), (), depth + 1)
+        return {'true': 'false', 'false': 'true'}.get(v)
+    return None
+
+
+def feasible_paths(fn, max_paths=2048):
+    """acyclic entry-to-return paths of fn that survive path-wise constant propagation: a switch whose operand is a constant assembled
+    earlier on the same path (a flag set in a match arm and tested after the match) keeps only the matching edge.  None if fn has loops."""
+    paths = enumerate_paths(fn, max_paths=max_paths)
+    if paths is None:
+        return None
+    out = []
+    for p in paths:
+        if p.end != 'return':
+            continue
+        ok = True
+        for i, bb in enumerate(p.blocks[:-1]):
+            t = fn.blocks[bb]['t']
+            if t['k'] != 'switch':
+                continue
+            v = path_const(fn, p.blocks, i, None, t['discr'])
+            if v is None:
+                continue
+            info = switch_info(fn, bb)
+            nxt = p.blocks[i + 1]
+            labs = [lab for lab, tgt in info['edges'] if tgt == nxt]
+            names = set()
+            for lab in labs:
+                names |= set(lab.split('|'))
+            explicit = set()
+            for lab, tgt in info['edges']:
+                explicit |= set(lab.split('|'))
+            if v in explicit and v not in names:
+                ok = False
+                break
+        if ok:
+            out.append(p)
+    return out
